@@ -1,5 +1,6 @@
 import Driver.C12
 import ThunderModel.Sql.BatchQuery
+import ThunderModel.Sql.Tester
 /-! C10 handler: rows of a query alone and of the same query inside a batch. -/
 open Lean TM.Sql.Batch TM.Sql.Limit
 
@@ -37,6 +38,28 @@ def handle : Handler := fun req => do
       ("callAlone", Json.arr (fs.map fun f => encRes (callAlone validF table f)).toArray),
       ("callBatched", Json.arr (fs.map fun f => encRes (callBatched validF fs table f)).toArray),
       ("old", Json.arr (fs.map fun f => Json.arr ((dispatchedOld (fun _ => 0) fs table f).map encRow).toArray).toArray)]
+  | "tester" =>
+    -- the row tester and the database's `=` on an integer column of kind [bits, signed] holding x
+    let kd ← arr req "kind"
+    let bits ← (kd[0]?.getD Json.null).getNat?
+    let signed ← (kd[1]?.getD Json.null).getBool?
+    let width ← match bits with
+      | 8 => pure TM.Codec.Width.w8 | 16 => pure TM.Codec.Width.w16 | 32 => pure TM.Codec.Width.w32 | 64 => pure TM.Codec.Width.w64
+      | _ => throw "C10: bad width"
+    let k : TM.Codec.IKind := ⟨width, signed⟩
+    let x ← int req "x"
+    let sp ← field req "spell"
+    let spell : TM.Sql.Tester.Spell ←
+      match sp with
+      | .str "fracFloat" => pure .fracFloat
+      | _ =>
+        match sp.getObjVal? "int", sp.getObjVal? "wholeFloat", sp.getObjVal? "bool" with
+        | .ok v, _, _ => do pure (.int (← v.getInt?))
+        | _, .ok v, _ => do pure (.wholeFloat (← v.getInt?))
+        | _, _, .ok v => do pure (.bool (← v.getBool?))
+        | _, _, _ => throw "C10: bad spelling"
+    pure <| Json.mkObj [("tester", TM.Sql.Tester.testerMatch k x spell), ("db", TM.Sql.Tester.dbMatch x spell),
+      ("inRange", decide (TM.Codec.inRange k x))]
   | _ => throw s!"C10: unknown op {op}"
 
 end Driver.C10
